@@ -1,6 +1,7 @@
 import KitProofs.Props.C04Parser
 import KitProofs.Props.C04Next
 import KitProofs.Props.C03
+import KitProofs.Lemmas.NoPanicSym
 import KitProofs.Lemmas.NoPanicNames
 import KitModel.NoPanicInventory
 /-!
@@ -104,11 +105,49 @@ theorem cbcHmacSeal_never_panics (P : CryptoGlue.Prims) (p : CryptoGlue.Facts.Ae
   simp only [h2, if_false]
   rfl
 
+/-- `crypto.EncryptSymmetric` (C03's model, whose guard prefixes and dispatch tables are regenerated
+from symmetric.go on every run) never panics: every algorithm name (listed or not), key of every
+kind, plaintext / nonce / associated data of every length — given primitives that satisfy their
+standards (`Std`: nonce and tag sizes; `LawfulPrims`: `Seal` with a right-size nonce returns at
+least `Overhead()` bytes). -/
+theorem encryptSymmetric_never_panics (P : CryptoGlue.Prims) (hS : P.Std) (hL : P.LawfulPrims)
+    (pt : Bytes) (alg : String) (key : CryptoGlue.Key) (nonce ad : Bytes) :
+    (CryptoGlue.encryptSymmetric P pt alg key nonce ad).isPanic = false := by
+  rcases key with ⟨kind, raw⟩
+  by_cases hk : kind = .oct
+  · subst hk; exact CryptoGlue.encryptSymmetric_oct_np P hS hL pt alg raw nonce ad
+  · unfold CryptoGlue.encryptSymmetric
+    have h : CryptoGlue.keyTypeName (CryptoGlue.Key.mk kind raw).kind ≠ Generated.C03.kind_EncryptSymmetric.1 :=
+      CryptoGlue.symmetric_nonoct kind hk
+    rw [if_pos h]; rfl
+
+/-- `crypto.DecryptSymmetric` never panics: every algorithm name, key kind, and ciphertext /
+nonce / tag / associated data of every length — given that the standard-library AEADs' `Open`
+returns for a nonce of `NonceSize()` bytes (`OpenSafe`; the CBC-HMAC AEAD's `Open` is proved
+safe here, `cbcHmacOpen_never_panics`). -/
+theorem decryptSymmetric_never_panics (P : CryptoGlue.Prims) (hS : P.Std) (hO : P.OpenSafe)
+    (ct : Bytes) (alg : String) (key : CryptoGlue.Key) (nonce tag ad : Bytes) :
+    (CryptoGlue.decryptSymmetric P ct alg key nonce tag ad).isPanic = false := by
+  rcases key with ⟨kind, raw⟩
+  by_cases hk : kind = .oct
+  · subst hk; exact CryptoGlue.decryptSymmetric_oct_np P hS hO ct alg raw nonce tag ad
+  · unfold CryptoGlue.decryptSymmetric
+    have h : CryptoGlue.keyTypeName (CryptoGlue.Key.mk kind raw).kind ≠ Generated.C03.kind_DecryptSymmetric.1 :=
+      CryptoGlue.symmetric_nonoct kind hk
+    rw [if_pos h]; rfl
+
+example : CryptoGlue.toyPrims.Std ∧ CryptoGlue.toyPrims.LawfulPrims ∧ CryptoGlue.toyPrims.OpenSafe :=
+  ⟨CryptoGlue.toyPrims_ok.1, CryptoGlue.toyPrims_ok.2,
+   ⟨fun _ _ _ _ _ => rfl, fun _ _ _ _ _ => rfl, fun _ _ _ _ _ => rfl⟩⟩
+
 /-- Every theorem the C07 inventory cites from another property's module exists there. -/
 theorem cited_elsewhere_exist :
     (NoPanic.Inventory.citedElsewhere.map (·.2)).all
       (· ∈ thm_names% [Kit.Cron.parse_never_panics, Kit.CryptoGlue.unwrap_never_panics,
-        Kit.CronSpec.next_terminates]) = true := by
+        Kit.CronSpec.next_terminates, Kit.CryptoGlue.dispatch_never_out_of_range,
+        Kit.C07.encryptSymmetric_never_panics, Kit.C07.decryptSymmetric_never_panics,
+        Kit.C07.aeskw_wrap_never_panics, Kit.C07.pad_never_panics, Kit.C07.unpad_never_panics,
+        Kit.C07.cbcHmacOpen_never_panics, Kit.C07.cbcHmacSeal_never_panics]) = true := by
   decide +kernel
 
 end Kit.C07
